@@ -328,7 +328,48 @@ class Env:
     def norm(self, bs):
         return normalize_abs(self.it, tuple(bs), self.cwd)
 
-    def find(self, comps):
+    def find(self, comps, follow=True, _depth=0):
+        """node at the path; symbolic links (add_symlink) are followed in every component, and in the last one unless follow=False"""
+        if not getattr(self, 'has_links', False):
+            return self._find_exact(comps)
+        if _depth > 8:
+            return None                                   # ELOOP
+        cur = []
+        comps = list(comps)
+        for i, c in enumerate(comps):
+            cur.append(c)
+            n = self._find_exact(cur)
+            if n is None:
+                return None
+            last = (i == len(comps) - 1)
+            if n[1] == 'symlink' and (follow or not last):
+                return self.find(list(n[2]) + comps[i + 1:], follow, _depth + 1)
+        return self._find_exact(cur)
+
+    def realpath(self, comps, _depth=0):
+        """components of the path with every symbolic link resolved (None if it does not exist)"""
+        if not getattr(self, 'has_links', False):
+            return list(comps) if self._find_exact(comps) is not None else None
+        if _depth > 8:
+            return None
+        cur = []
+        comps = list(comps)
+        for i, c in enumerate(comps):
+            cur.append(c)
+            n = self._find_exact(cur)
+            if n is None:
+                return None
+            if n[1] == 'symlink':
+                return self.realpath(list(n[2]) + comps[i + 1:], _depth + 1)
+        return cur
+
+    def add_symlink(self, path, target):
+        comps = self.norm(path)
+        self.add_dir(comps_to_bytes(comps[:-1]))
+        self.has_links = True
+        self.nodes.append([comps, 'symlink', tuple(self.norm(target))])
+
+    def _find_exact(self, comps):
         it = self.it
         for n in self.nodes:
             nc = n[0]
@@ -410,7 +451,17 @@ class Env:
         if n is None:
             # file unlinked while open: writes go nowhere visible
             return
-        n[2] = tuple(n[2]) + tuple(data)
+        if h.get('positional'):
+            # a handle opened for writing without O_APPEND / O_TRUNC has one file offset shared by reads and writes: the bytes
+            # replace what is there and extend the file when they reach past its end (older content beyond them stays)
+            off = h['pos']
+            cur = tuple(n[2])
+            if off > len(cur):
+                cur = cur + (0,) * (off - len(cur))
+            n[2] = cur[:off] + tuple(data) + cur[off + len(data):]
+            h['pos'] = off + len(data)
+        else:
+            n[2] = tuple(n[2]) + tuple(data)
         self.log.append(('write', printable(comps_to_bytes(h['comps']))))
 
     # ---- iter protocol for env iterators
@@ -531,7 +582,8 @@ def m_canonicalize(it, argv, text):
         return err(io_error('NotFound'))
     if env.maybe_fail('canonicalize', p):
         return err(io_error('Other'))
-    return ok(StrV(comps_to_bytes(comps)))
+    real = env.realpath(comps)
+    return ok(StrV(comps_to_bytes(real if real is not None else comps)))
 
 
 @emodel('File::open')
@@ -767,7 +819,7 @@ def m_remove_file(it, argv, text):
     env = env_of(it)
     p = path_arg(it, argv[0])
     comps = env.norm(p)
-    n = env.find(comps)
+    n = env.find(comps, follow=False)
     if n is None:
         return err(io_error('NotFound'))
     if n[1] == 'dir':
@@ -854,7 +906,7 @@ def m_read_dir(it, argv, text):
         return err(io_error('PermissionDenied'))
     entries = []
     for m in env.nodes:
-        if len(m[0]) == len(comps) + 1 and env.find(m[0][:-1]) is n:
+        if len(m[0]) == len(n[0]) + 1 and env._find_exact(m[0][:-1]) is n:
             entries.append(path_join(it, p, m[0][-1]))
     if env.dir_order == 'permute' and len(entries) > 1:
         out = []
@@ -876,7 +928,7 @@ def m_direntry_path(it, argv, text):
 
 @emodel('Command::new')
 def m_command_new(it, argv, text):
-    return StructV('Command', (it.as_str(argv[0]), NONE, VecV(()), VecV(())))
+    return StructV('Command', (it.as_str(argv[0]), NONE, VecV(()), VecV(()), TupleV(('inherit', 'inherit', 'inherit'))))
 
 
 def _cmd_update(it, ref, k, f):
@@ -1255,6 +1307,15 @@ def m_bufreader_buffer(it, argv, text):
 def m_read_to_end(it, argv, text):
     env = env_of(it)
     rd = it.deref_all(argv[0])
+    if isinstance(rd, OpaqueV) and rd.kind == 'Pipe':
+        p = env.pipes[rd.data]
+        data = tuple(p['data'][p['pos']:])
+        p['pos'] = len(p['data'])
+        if text.endswith('read_to_string') and not valid_utf8(it, data):
+            return err(io_error('InvalidData'))
+        cur = it.load(argv[1].addr)
+        it.store(argv[1].addr, StrV(cur.b + data) if isinstance(cur, StrV) else VecV(cur.e + data))
+        return ok(len(data))
     h = env.handles[rd.data]
     n = env.find(h['comps'])
     if n is None or n[1] != 'file':
@@ -1453,3 +1514,154 @@ def m_write_once(it, argv, text):
         return ok(k)
     env._append(h, bs)
     return ok(len(bs))
+
+
+# ----------------------------------------------------------------------------- Seek / set_len (round 4)
+
+def _seek_handle(it, v):
+    env = env_of(it)
+    w = it.deref_all(v)
+    if not isinstance(w, OpaqueV) or w.kind not in ('File', 'BufWriter', 'BufReader'):
+        raise Unsupported("seek on %r" % (w,))
+    return env, w, env.handles[w.data]
+
+
+@emodel('Seek::rewind')
+def m_seek_rewind(it, argv, text):
+    env, w, h = _seek_handle(it, argv[0])
+    if w.kind == 'BufWriter' and h['buf']:
+        env._append(h, h['buf'])
+        h['buf'] = []
+    h['pos'] = 0
+    h['bufend'] = None
+    return ok(UNIT)
+
+
+@emodel('Seek::stream_position')
+def m_stream_position(it, argv, text):
+    env, w, h = _seek_handle(it, argv[0])
+    n = env.find(h['comps'])
+    size = len(n[2]) if n is not None and n[1] == 'file' else 0
+    if h.get('mode') == 'w' and not h.get('positional'):
+        return ok(size + len(h['buf']))       # append-style handle (File::create): the offset is the end of what was written
+    return ok(h['pos'] + (len(h['buf']) if w.kind == 'BufWriter' else 0))
+
+
+@emodel('Seek::seek')
+def m_seek(it, argv, text):
+    env, w, h = _seek_handle(it, argv[0])
+    sf = it.deref_all(argv[1])
+    if not (isinstance(sf, EnumV) and sf.vname == 'Start' and isinstance(sf.f[0], int)):
+        raise Unsupported("seek to %r" % (sf,))
+    if w.kind == 'BufWriter' and h['buf']:
+        env._append(h, h['buf'])
+        h['buf'] = []
+    h['pos'] = sf.f[0]
+    h['bufend'] = None
+    return ok(sf.f[0])
+
+
+@emodel('File::set_len')
+def m_set_len(it, argv, text):
+    env, w, h = _seek_handle(it, argv[0])
+    n = env.find(h['comps'])
+    if n is None or n[1] != 'file':
+        return err(io_error('NotFound'))
+    if env.maybe_fail('write', comps_to_bytes(h['comps'])):
+        return err(io_error('StorageFull'))
+    k = argv[1]
+    if not isinstance(k, int):
+        raise Unsupported("set_len with a symbolic length")
+    cur = tuple(n[2])
+    n[2] = cur[:k] if k <= len(cur) else cur + (0,) * (k - len(cur))
+    env.log.append(('truncate', printable(comps_to_bytes(h['comps']))))
+    return ok(UNIT)
+
+
+@emodel('BufWriter::get_ref', 'BufWriter::get_mut', 'BufReader::get_ref', 'BufReader::get_mut')
+def m_buf_get_ref(it, argv, text):
+    w = it.deref_all(argv[0])
+    return RefV(it.alloc(OpaqueV('File', w.data)))
+
+
+# ----------------------------------------------------------------------------- spawn / wait / pipes (round 4)
+
+PIPE_CAP = 65536          # capacity of a Linux pipe: a child writing more than this blocks until somebody reads
+
+
+@emodel('Stdio::null', 'Stdio::piped', 'Stdio::inherit')
+def m_stdio(it, argv, text):
+    return OpaqueV('Stdio', text.rsplit('::', 1)[-1])
+
+
+def _set_stdio(k):
+    def f(it, argv, text):
+        kind = it.deref_all(argv[1])
+        kind = kind.data if isinstance(kind, OpaqueV) and kind.kind == 'Stdio' else 'inherit'
+        return _cmd_update(it, argv[0], 4, lambda old: TupleV(tuple(kind if i == k else x for i, x in enumerate(old.f))))
+    return f
+
+
+MODELS['Command::stdin'] = _set_stdio(0)
+MODELS['Command::stdout'] = _set_stdio(1)
+MODELS['Command::stderr'] = _set_stdio(2)
+
+
+@emodel('Command::spawn')
+def m_command_spawn(it, argv, text):
+    env = env_of(it)
+    c = it.deref_all(argv[0])
+    rec = {'exe': c.f[0], 'cwd': None if c.f[1].idx == 0 else c.f[1].f[0], 'args': list(c.f[2].e),
+           'env': [(kv.f[0], kv.f[1]) for kv in c.f[3].e]}
+    env.commands.append(rec)
+    if env.proc_handler is None:
+        raise Unsupported("a command was spawned but the harness installed no process model")
+    res = env.proc_handler(it, rec)
+    if res is None:
+        return err(io_error('NotFound'))
+    code, out, errb = res
+    if not hasattr(env, 'pipes'):
+        env.pipes = {}
+    stdio = c.f[4].f if len(c.f) > 4 else ('inherit',) * 3
+    fields = [OpaqueV('Process', len(env.pipes)), NONE]
+    pid = len(env.pipes)
+    for k, data in ((1, out), (2, errb)):
+        if stdio[k] == 'piped':
+            pk = (pid, k)
+            env.pipes[pk] = {'data': tuple(data), 'pos': 0}
+            fields.append(some(OpaqueV('Pipe', pk)))
+        else:
+            fields.append(NONE)
+    env.children = getattr(env, 'children', {})
+    env.children[pid] = {'code': code, 'pipes': [pk for pk in ((pid, 1), (pid, 2)) if pk in env.pipes]}
+    return ok(StructV('Child', tuple(fields)))
+
+
+def _child(it, v):
+    env = env_of(it)
+    ch = it.deref_all(v)
+    return env, ch, env.children[ch.f[0].data]
+
+
+@emodel('Child::wait')
+def m_child_wait(it, argv, text):
+    env, ch, st = _child(it, argv[0])
+    for pk in st['pipes']:
+        p = env.pipes[pk]
+        if len(p['data']) - p['pos'] > PIPE_CAP:
+            # the child blocks in write(2) on the full pipe and never exits; wait() never returns
+            raise RustPanic("hang: Child::wait() while the child still has %d bytes to write into a pipe nobody reads (capacity %d)"
+                            % (len(p['data']) - p['pos'], PIPE_CAP))
+    return ok(OpaqueV('ExitStatus', st['code']))
+
+
+@emodel('Child::wait_with_output')
+def m_child_wait_with_output(it, argv, text):
+    env = env_of(it)
+    ch = it.deref_all(argv[0])
+    st = env.children[ch.f[0].data]
+    bufs = []
+    for k in (1, 2):
+        pk = (ch.f[0].data, k)
+        bufs.append(VecV(tuple(env.pipes[pk]['data'])) if pk in env.pipes else VecV(()))
+    return ok(StructV('Output', (OpaqueV('ExitStatus', st['code']), bufs[0], bufs[1])))
